@@ -4,6 +4,7 @@
    sub-nodes is t (trace entries, trace values, sub-results, locations ... to any depth). *)
 From ACV Require Import Base.Strs Model.Graph Model.Rules Model.Report Model.ReportRef Model.Engine.
 From ACV Require Import Proofs.ReportProofs Proofs.EngineProofs Proofs.ShapeProofs Model.Dnf Extracted.ReportFacts.
+From ACV Require Import Model.Yaml Model.ProfileParser Proofs.ParserMessages.
 
 Theorem C12_tie_id_scheme : define_id_formats = ref_define_id_formats /\ build_results_loops = ref_build_results_loops.
 Proof. vm_compute. split; reflexivity. Qed.
@@ -59,6 +60,13 @@ Example C12_example :
   /\ In "warning_10_0_traceValue_0_0" (ids "warning_10" t).
 Proof. vm_compute. repeat split. auto 20. Qed.
 
+(* every result names a non-empty message: the parsed message of a validation is empty only when the profile itself
+   says `message: ""`; omitted, null, numeric, boolean, sequence or mapping values give "Validation error" *)
+Theorem C12_message_nonempty : forall defaults doc p, parse_profile defaults doc = POk p ->
+  forall d, In d (p_defs p) -> v_msg d = ""%string ->
+  exists vals v, yget "validations" doc = Some (YMap vals) /\ In (v_name d, v) vals /\ yget "message" v = Some (YScalar "!!str" "").
+Proof. exact parsed_message_empty_only_if_written. Qed.
+
 Print Assumptions C12_tie_id_scheme.
 Print Assumptions C12_tie_document.
 Print Assumptions C12_ids_unique_in_result.
@@ -70,3 +78,4 @@ Print Assumptions C12_validate_ids_unique.
 Print Assumptions C12_result_shapes_wf.
 Print Assumptions C12_result_ids_unique.
 Print Assumptions C12_trace_nonempty.
+Print Assumptions C12_message_nonempty.
